@@ -93,7 +93,10 @@ func localAddr(a ssa.Value) bool {
 
 // inlinablePred reports whether a call in a branch condition can be expanded.
 func inlinablePred(f *ssa.Function) bool {
-	if noInline || f == nil || anchored[f] || !isRepoFunc(f) || f.Parent() != nil {
+	if noInline || f == nil || anchored[f] || !isRepoFunc(f) {
+		return false
+	}
+	if f.Parent() != nil && !readsFreeVarsOnly(f) {
 		return false
 	}
 	if c := inlinableCache[f]; c != 0 {
@@ -137,7 +140,21 @@ func predCall(cond ssa.Value) (*ssa.Call, bool) {
 
 // aliasParams renders the callee's parameters as the caller's argument terms.
 func aliasParams(f *ssa.Function, args []ssa.Value) func() {
+	return aliasParamsFV(f, args, nil)
+}
+
+// aliasParamsFV also renders the free variables of a closure as the cells it was built over.
+func aliasParamsFV(f *ssa.Function, args []ssa.Value, closure ssa.Value) func() {
 	var undo []func()
+	if mc, ok := closure.(*ssa.MakeClosure); ok {
+		for i, fv := range f.FreeVars {
+			if i < len(mc.Bindings) {
+				if _, had := termAlias[fv]; !had {
+					undo = append(undo, alias(fv, Term(mc.Bindings[i])))
+				}
+			}
+		}
+	}
 	for i, p := range f.Params {
 		if i < len(args) {
 			if _, had := termAlias[p]; had {
@@ -165,7 +182,7 @@ type predPath struct {
 
 func predPaths(call *ssa.Call, assume map[ssa.Value]string) ([]predPath, bool) {
 	f := call.Call.StaticCallee()
-	restore := aliasParams(f, call.Call.Args)
+	restore := aliasParamsFV(f, call.Call.Args, call.Call.Value)
 	defer restore()
 	as := map[ssa.Value]string{}
 	for i, p := range f.Params {
@@ -224,7 +241,7 @@ func predImplied(call *ssa.Call, pol bool) []string {
 				set[pp.litF] = true
 			}
 			if phi, isPhi := pp.ret.(*ssa.Phi); isPhi {
-				restore := aliasParams(call.Call.StaticCallee(), call.Call.Args)
+				restore := aliasParamsFV(call.Call.StaticCallee(), call.Call.Args, call.Call.Value)
 				for _, l := range expandBoolPhi(phi, pol) {
 					set[l] = true
 				}
@@ -359,7 +376,7 @@ func eachInlined(fn *ssa.Function, visit func(*ssa.Function)) {
 		instrsOf(f, func(in ssa.Instruction) {
 			if c, ok := in.(*ssa.Call); ok && isBranchPredicate(c) {
 				g := c.Call.StaticCallee()
-				restore := aliasParams(g, c.Call.Args)
+				restore := aliasParamsFV(g, c.Call.Args, c.Call.Value)
 				rec(g, depth+1)
 				restore()
 			}
@@ -510,4 +527,67 @@ func storesNothing(f *ssa.Function, depth int) bool {
 		}
 	}
 	return true
+}
+
+// readsFreeVarsOnly: a closure that never stores through its free variables.
+func readsFreeVarsOnly(f *ssa.Function) bool {
+	ok := true
+	instrsOf(f, func(in ssa.Instruction) {
+		if st, isSt := in.(*ssa.Store); isSt {
+			a := st.Addr
+			for {
+				switch x := a.(type) {
+				case *ssa.FieldAddr:
+					a = x.X
+					continue
+				case *ssa.IndexAddr:
+					a = x.X
+					continue
+				}
+				break
+			}
+			if _, isFV := a.(*ssa.FreeVar); isFV {
+				ok = false
+			}
+		}
+	})
+	return ok
+}
+
+// paramCell: the Alloc is the cell go/ssa creates for a parameter that a closure captures: it
+// is stored exactly once, with the parameter, in the entry block, and is otherwise only loaded
+// or bound into closures that do not store through it. Such a cell is the parameter.
+func paramCell(a *ssa.Alloc) *ssa.Parameter {
+	refs := a.Referrers()
+	if refs == nil {
+		return nil
+	}
+	var par *ssa.Parameter
+	stores := 0
+	for _, rf := range *refs {
+		switch x := rf.(type) {
+		case *ssa.Store:
+			if x.Addr != ssa.Value(a) {
+				return nil
+			}
+			stores++
+			p, ok := x.Val.(*ssa.Parameter)
+			if !ok || x.Block().Index != 0 {
+				return nil
+			}
+			par = p
+		case *ssa.UnOp:
+		case *ssa.MakeClosure:
+			if fn, ok := x.Fn.(*ssa.Function); !ok || !readsFreeVarsOnly(fn) {
+				return nil
+			}
+		case *ssa.DebugRef:
+		default:
+			return nil
+		}
+	}
+	if stores != 1 {
+		return nil
+	}
+	return par
 }
